@@ -99,56 +99,56 @@ func c11Classify(f *sgen.Feed) (classes []string, nontrivial bool) {
 	return dedupe(classes), outside || len(withEx) >= 2
 }
 
-func TestC11(t *testing.T) {
-	rapid.Check(t, func(t *rapid.T) {
-		o := sgen.DefaultGenOpts()
-		o.ServiceMix, o.MinServices, o.MaxServices = true, 3, 5
-		o.GapDays = true
-		o.MaxStops, o.MaxShapes, o.MaxStopTimes, o.MaxFreq, o.MaxTransfers = 3, 0, 2, 0, 0
-		if tierThorough() {
-			o.MaxServices = 12
+func TestC11(t *testing.T) { rapid.Check(t, propC11) }
+
+func propC11(t *rapid.T) {
+	o := sgen.DefaultGenOpts()
+	o.ServiceMix, o.MinServices, o.MaxServices = true, 3, 5
+	o.GapDays = true
+	o.MaxStops, o.MaxShapes, o.MaxStopTimes, o.MaxFreq, o.MaxTransfers = 3, 0, 2, 0, 0
+	if tierThorough() {
+		o.MaxServices = 12
+	}
+	f, info := sgen.GenFeed(t, o)
+	if rapid.IntRange(0, 5).Draw(t, "calendarOnly") == 0 {
+		// services from calendar.txt alone: calendar_dates.txt has no rows (absent, header only, or a zero-byte member)
+		f.CalendarDates = nil
+		svc := map[string]bool{}
+		for _, c := range f.Calendar {
+			svc[c.ServiceID] = true
 		}
-		f, info := sgen.GenFeed(t, o)
-		if rapid.IntRange(0, 5).Draw(t, "calendarOnly") == 0 {
-			// services from calendar.txt alone: calendar_dates.txt has no rows (absent, header only, or a zero-byte member)
-			f.CalendarDates = nil
-			svc := map[string]bool{}
-			for _, c := range f.Calendar {
-				svc[c.ServiceID] = true
+		var trips []sgen.Trip
+		dropped := map[string]bool{}
+		for _, tr := range f.Trips {
+			if svc[tr.ServiceID] {
+				trips = append(trips, tr)
+			} else {
+				dropped[tr.ID] = true
 			}
-			var trips []sgen.Trip
-			dropped := map[string]bool{}
-			for _, tr := range f.Trips {
-				if svc[tr.ServiceID] {
-					trips = append(trips, tr)
-				} else {
-					dropped[tr.ID] = true
-				}
+		}
+		f.Trips = trips
+		var sts []sgen.StopTime
+		for _, st := range f.StopTimes {
+			if !dropped[st.TripID] {
+				sts = append(sts, st)
 			}
-			f.Trips = trips
-			var sts []sgen.StopTime
-			for _, st := range f.StopTimes {
-				if !dropped[st.TripID] {
-					sts = append(sts, st)
-				}
-			}
-			f.StopTimes = sts
 		}
-		p := sgen.Canonical()
-		if rapid.Bool().Draw(t, "present") {
-			p, _ = sgen.GenPresentation(t, f.Tables())
-		}
-		c := CaseStatic{Feed: f, Pres: p}
-		classes, nt := c11Classify(f)
-		c11Rec.Eval(classes...)
-		if info.MovedDates > 0 {
-			c11Rec.Exclude("date without a unique local midnight moved to the next day")
-		}
-		if nt {
-			c11Rec.NontrivialCase(vt.Fingerprint(c), func() any {
-				return map[string]any{"agency_timezone": f.Agencies[0].TZ, "calendar": f.Calendar, "calendar_dates": f.CalendarDates}
-			})
-		}
-		vt.Run(t, c11Rec, c, checkC11)
-	})
+		f.StopTimes = sts
+	}
+	p := sgen.Canonical()
+	if rapid.Bool().Draw(t, "present") {
+		p, _ = sgen.GenPresentation(t, f.Tables())
+	}
+	c := CaseStatic{Feed: f, Pres: p}
+	classes, nt := c11Classify(f)
+	c11Rec.Eval(classes...)
+	if info.MovedDates > 0 {
+		c11Rec.Exclude("date without a unique local midnight moved to the next day")
+	}
+	if nt {
+		c11Rec.NontrivialCase(vt.Fingerprint(c), func() any {
+			return map[string]any{"agency_timezone": f.Agencies[0].TZ, "calendar": f.Calendar, "calendar_dates": f.CalendarDates}
+		})
+	}
+	vt.Run(t, c11Rec, c, checkC11)
 }
